@@ -103,12 +103,21 @@ impl Display for OpeningHoursExpression {
 
         write!(f, "{first}")?;
 
-        for rule in &self.rules[1..] {
+        for (prev, rule) in self.rules.iter().zip(&self.rules[1..]) {
             let separator = match rule.operator {
                 RuleOperator::Normal => " ; ",
                 RuleOperator::Additional => ", ",
                 RuleOperator::Fallback => " || ",
             };
+
+            // `Jan 1, easter` reads as a list of two dates: when a rule printed as bare dates is
+            // followed by an additional rule starting with `easter`, write its time span out.
+            if rule.operator == RuleOperator::Additional
+                && prev.ends_with_bare_monthday()
+                && rule.starts_with_easter()
+            {
+                write!(f, " {}", prev.time_selector)?;
+            }
 
             write!(f, "{separator}{rule}")?;
         }
@@ -133,6 +142,25 @@ impl RuleSequence {
     /// can't detect all cases.
     pub fn is_constant(&self) -> bool {
         self.day_selector.is_empty() && self.time_selector.is_00_24()
+    }
+
+    /// The rule is printed as its day selector only, and that ends with a month or a date.
+    fn ends_with_bare_monthday(&self) -> bool {
+        self.time_selector.is_00_24()
+            && self.kind == RuleKind::Open
+            && self.comments.is_empty()
+            && !self.day_selector.monthday.is_empty()
+            && self.day_selector.week.is_empty()
+            && self.day_selector.weekday.is_empty()
+    }
+
+    /// The rule is printed with `easter` as its first word.
+    fn starts_with_easter(&self) -> bool {
+        self.day_selector.year.is_empty()
+            && matches!(
+                self.day_selector.monthday.first(),
+                Some(day::MonthdayRange::Date { start: (day::Date::Easter { year: None }, _), .. })
+            )
     }
 }
 
